@@ -144,6 +144,27 @@ def gen_cases(rng, tier, rng_ret=None):
         cases.append((sp, a, a + w, n, G.log_uniform(rng, 1e-10, 1e-6)))
     if rng_ret is not None:
         cases += gen_return_kind_cases(rng_ret, tier)      # a stream of its own: the cases above stay what they were per seed
+        # the sub-epsilon regime (a stream of its own): f is a polynomial of degree <= n to working precision -- narrow intervals, degrees 5..20 --
+        # so the error curve the exchange step works on is rounding noise of random sign.  The call may raise OptimizationError; if it
+        # returns, the reference is n+2 increasing points and max|f - p| <= err + atol + 1e-11 max|f| like everywhere else.
+        rng_se = __import__("random").Random(rng_ret.getrandbits(62))     # (drawn after the return-kind cases: they stay what they were)
+        for _ in range(160 if tier == "quick" else 1200):
+            kind = rng_se.choice(["pow", "pow", "exp", "log", "rec"])
+            w = G.log_uniform(rng_se, 1e-3, 5e-2)
+            n = rng_se.randint(5, 20)
+            if kind == "pow":
+                k = rng_se.uniform(-0.9, 6.0)
+                k = k + 0.31 if abs(k - round(k)) < 0.05 else k
+                sp, a = G.spec("pow", k), rng_se.uniform(0.5, 9.9 - w)
+            elif kind == "exp":
+                sp, a = G.spec("exp", rng_se.uniform(-2.0, 2.0)), rng_se.uniform(-5.0, 5.0)
+            elif kind == "log":
+                a = rng_se.uniform(0.0, 9.0)
+                sp = G.spec("log", rng_se.uniform(0.5, 3.0))
+            else:
+                a = rng_se.uniform(0.0, 9.0)
+                sp = G.spec("rec", rng_se.uniform(0.5, 3.0))
+            cases.append((sp, a, a + w, n, None if rng_se.random() < 0.7 else G.log_uniform(rng_se, 1e-13, 1e-9)))
     # call history: a fraction of all cases is preceded by a call with the same function object, interval and degree but a
     # looser tolerance (a result must not depend on what was solved before)
     out = []
